@@ -282,10 +282,11 @@ def sumOpt : List (Option Rat) → Option Rat
 def rawScore (fn : ScoreFn) (useAlpha : Bool) (ms : List Match) : Option Rat :=
   sumOpt (ms.map (pointScore fn useAlpha))
 
-/-- `NBlaster.calc_self_hit`. -/
+/-- `NBlaster.calc_self_hit`: distance `0` (written `sqrt 0`, the same number in the representation the
+matched distances use), dot product `1.0`, resp. `1 * sqrt(alpha * alpha)` per point when alpha is used. -/
 def selfHit (fn : ScoreFn) (useAlpha : Bool) (q : Cloud) : Option Rat :=
-  if useAlpha then sumOpt (q.map fun p => fn (.x (.fin 0)) (.sqrt (p.a * p.a)))
-  else (fn (.x (.fin 0)) (.x (.fin 1))).map (fun c => (q.length : Rat) * c)
+  if useAlpha then sumOpt (q.map fun p => fn (.sqrt 0) (.sqrt (p.a * p.a)))
+  else (fn (.sqrt 0) (.x (.fin 1))).map (fun c => (q.length : Rat) * c)
 
 structure Cfg where
   useAlpha : Bool
@@ -308,25 +309,30 @@ def Mode.name : Mode → String
 
 def Mode.all : List Mode := [.forward, .mean, .min, .max, .both]
 
-/-- Forward score of `single_query_target`. A zero self-hit makes the normalised score undefined
-(numpy: `inf`/`nan`): `none`. -/
+/-- Sum of the per-point scores of the query's points matched into the target. -/
+def pairRaw (fn : ScoreFn) (cfg : Cfg) (q t : Cloud) : Option Rat :=
+  match distDots q t cfg.bound with
+  | none => none
+  | some ms => rawScore fn cfg.useAlpha ms
+
+/-- `scr /= self_hit`. A zero self-hit makes the normalised score undefined (numpy: `inf`/`nan`): `none`. -/
+def normalise (scr sh : Rat) : Option Rat := if sh = 0 then none else some (scr / sh)
+
+/-- Forward score of `single_query_target` (indices into the blaster's lists). -/
 def forward (fn : ScoreFn) (cfg : Cfg) (nb : Blaster) (qi ti : Nat) : Option Rat :=
   if qi = ti then
     (if cfg.normalized then some 1 else nb.selfHits[qi]?)
   else
     match nb.neurons[qi]?, nb.neurons[ti]? with
     | some q, some t =>
-      match distDots q.pts t.pts cfg.bound with
+      match pairRaw fn cfg q.pts t.pts with
       | none => none
-      | some ms =>
-        match rawScore fn cfg.useAlpha ms with
-        | none => none
-        | some scr =>
-          if cfg.normalized then
-            match nb.selfHits[qi]? with
-            | some sh => if sh = 0 then none else some (scr / sh)
-            | none => none
-          else some scr
+      | some scr =>
+        if cfg.normalized then
+          match nb.selfHits[qi]? with
+          | some sh => normalise scr sh
+          | none => none
+        else some scr
     | _, _ => none
 
 /-- Python's built-in `min(a, b)` / `max(a, b)`. -/
@@ -401,6 +407,37 @@ def nblastAllByAll (fn : ScoreFn) (cfg : Cfg) (x : List Dotprops) : Option Frame
   match allSome (x.map fun n => selfHit fn cfg.useAlpha n.pts) with
   | some hs => multiQueryTarget fn cfg ⟨x, hs⟩ (List.range x.length) (List.range x.length) .forward
   | none => none
+
+/-! ## The published definition, index-free (what the theorems of `Props/C06.lean` relate the above to) -/
+
+/-- Forward NBLAST score of cloud `q` against cloud `t`. -/
+def defForward (fn : ScoreFn) (cfg : Cfg) (q t : Cloud) : Option Rat :=
+  match pairRaw fn cfg q t with
+  | none => none
+  | some scr =>
+    if cfg.normalized then
+      match selfHit fn cfg.useAlpha q with
+      | some sh => normalise scr sh
+      | none => none
+    else some scr
+
+/-- Score of `q` against `t` in a given mode. -/
+def defScore (fn : ScoreFn) (cfg : Cfg) (q t : Cloud) (mode : Mode) : Option Score :=
+  match defForward fn cfg q t with
+  | none => none
+  | some f =>
+    match mode with
+    | .forward => some (.one f)
+    | _ =>
+      match defForward fn cfg t q with
+      | none => none
+      | some r =>
+        match mode with
+        | .forward => some (.one f)
+        | .mean => some (.one ((f + r) / 2))
+        | .min => some (.one (pyMin f r))
+        | .max => some (.one (pyMax f r))
+        | .both => some (.two f r)
 
 /-- `limit_dist='auto'`: the clipped table's last boundary is `inf`, so navis takes the second highest
 boundary times 1.05 (`c105` = the double nearest to 1.05). -/
